@@ -335,7 +335,7 @@ pub fn exact_syms() -> Vec<Ev> {
 }
 pub fn broad_syms() -> Vec<Ev> {
     let mut v = Vec::new();
-    for dt in [1_000i64, 1_000_000, S, S + (1i64 << 32), 3600 * S] {
+    for dt in [1_000i64, 1_000_000, S / 2, S / 2 + (1i64 << 32), S, S + (1i64 << 32), 3600 * S] {
         for x in [0.1f32, -7.3, 1000.0] {
             v.push(Ev::P(dt, x));
         }
@@ -414,8 +414,8 @@ pub fn run(ctx: &Ctx) -> Vec<Eng> {
     let bs = broad_syms();
     let mut e2 = Eng::new(
         "c10-seqs-broad",
-        "same over the broad alphabet {P(dt,v): dt in {1us,1ms,1s,1s+2^32ns,1h}, v in {0.1,-7.3,1000}} + {N,E1}: f64 reference with running forward-error bound (8x)",
-        &format!("depth {} => 17^{} histories x 5 streams", bdepth, bdepth),
+        "same over the broad alphabet {P(dt,v): dt in {1us,1ms,0.5s,0.5s+2^32ns,1s,1s+2^32ns,1h} (pairs congruent modulo 2^32 ns on both sides of 5 s), v in {0.1,-7.3,1000}} + {N,E1}: f64 reference with running forward-error bound (8x)",
+        &format!("depth {} => 23^{} histories x 5 streams", bdepth, bdepth),
     );
     for kind in 0..5 {
         par_seqs(&mut e2, bs.len(), bdepth, budget, |seq, e| {
@@ -428,10 +428,10 @@ pub fn run(ctx: &Ctx) -> Vec<Eng> {
     let (hz, k) = if ctx.thorough { (48, 3) } else { (40, 2) };
     let mut e3 = Eng::new(
         "c10-deviations",
-        "all histories of exactly H events differing from the default stream P(1 s, cycle {0,1,-2,3}) in at most k positions, deviations {N, E1, P(0.25 s), P(2 s), P(1 us), P(1 h), P(1 s + 2^32 ns), P(2^24+1 ns), P(2^31 ns)}; 5 streams",
+        "all histories of exactly H events differing from the default stream P(1 s, cycle {0,1,-2,3}) in at most k positions, deviations {N, E1, P(0.25 s), P(2 s), P(1 us), P(1 h), P(1 s + 2^32 ns), P(2^24+1 ns), P(2^31 ns), P(d + 2^32 ns) for the short deviation interval d}; 5 streams",
         &format!("H={} k={}", hz, k),
     );
-    let cases = deviation_cases(hz, 9, k);
+    let cases = deviation_cases(hz, 10, k);
     let cyc = [0.0f32, 1.0, -2.0, 3.0];
     for kind in 0..5 {
         par_cases(&mut e3, &cases, budget, |c, e| {
@@ -447,7 +447,8 @@ pub fn run(ctx: &Ctx) -> Vec<Eng> {
                     5 => Ev::P(3600 * S, v),
                     6 => Ev::P(S + (1i64 << 32), v),
                     7 => Ev::P((1i64 << 24) + 1, v),
-                    _ => Ev::P(1i64 << 31, v),
+                    8 => Ev::P(1i64 << 31, v),
+                    _ => Ev::P(S / 4 + (1i64 << 32), v),
                 };
             }
             e.executions += 1;
